@@ -218,6 +218,26 @@ Proof.
     rewrite map_fst_combine in H2 by exact Hlen. exact H2.
 Qed.
 
+Lemma NoDup_app_parts {A} (l m : list A) :
+  NoDup (l ++ m) -> NoDup l /\ NoDup m /\ (forall x, In x l -> ~ In x m).
+Proof.
+  induction l as [|a r IH]; simpl; intros H.
+  - split; [constructor | split; [exact H | intros x []]].
+  - inversion H as [|a' l' Hna Hnd]; subst. destruct (IH Hnd) as [K1 [K2 Hd]]. split; [|split].
+    + constructor; [|exact K1]. intros Hin. apply Hna. apply in_or_app. left. exact Hin.
+    + exact K2.
+    + intros x [E|Hx]; [subst; intros Hm; apply Hna; apply in_or_app; right; exact Hm | apply Hd; exact Hx].
+Qed.
+
+Lemma NoDup_app_join {A} (l m : list A) :
+  NoDup l -> NoDup m -> (forall x, In x l -> ~ In x m) -> NoDup (l ++ m).
+Proof.
+  induction l as [|a r IH]; simpl; intros H1 H2 Hd; [exact H2|].
+  inversion H1; subst. constructor.
+  - intros Hin. apply in_app_or in Hin. destruct Hin as [Hin|Hin]; [contradiction | apply (Hd a); [left; reflexivity | exact Hin]].
+  - apply IH; [assumption | assumption | intros x Hx; apply Hd; right; exact Hx].
+Qed.
+
 (* ------------------------------------------------------------------ from the local isomorphism to the global uid map *)
 Lemma Forall2_combine_in {A B} (R : A -> B -> Prop) l m a b : Forall2 R l m -> In (a, b) (combine l m) -> R a b.
 Proof.
@@ -233,6 +253,13 @@ Qed.
 
 Lemma in_combine_both {A B} (l : list A) (m : list B) a b : In (a, b) (combine l m) -> In a l /\ In b m.
 Proof. intros H. split; [eapply in_combine_l | eapply in_combine_r]; exact H. Qed.
+
+Lemma Forall2_in_l {A B} (R : A -> B -> Prop) l m a : Forall2 R l m -> In a l -> exists b, In b m /\ R a b.
+Proof.
+  induction 1 as [|x y l m Hxy _ IH]; simpl; intros Hin; [contradiction|].
+  destruct Hin as [E|Hin]; [subst; exists y; split; [left; reflexivity | exact Hxy]|].
+  destruct (IH Hin) as [b [Hb Hr]]. exists b. split; [right; exact Hb | exact Hr].
+Qed.
 
 Lemma iso_len s t' : iso s t' -> length (uids s) = length (uids t').
 Proof.
@@ -269,4 +296,934 @@ Proof.
     + apply (IH _ H3 Hnd2 _ _ Hin _ Hx).
     + rewrite map_fst_combine by (apply iso_len; assumption). intros Hxa. apply (Hdisj x Hxa).
       apply in_flat_map. exists c. split; [apply (in_combine_both _ _ _ _ Hin) | exact Hx].
+Qed.
+
+Lemma look_roots (F : uid -> uid) ch : forall ch',
+  length ch = length ch' -> NoDup (map root_uid ch) ->
+  (forall c c', In (c, c') (combine ch ch') -> F (root_uid c) = root_uid c') ->
+  forall x, In x (map root_uid ch) -> look (combine (map root_uid ch) (map root_uid ch')) x = F x.
+Proof.
+  induction ch as [|c r IHc]; intros [|c' r'] Hlen Hndr Hroot x Hx; simpl in *; try discriminate; [contradiction|].
+  inversion Hndr as [|a l Hna Hnd]; subst. destruct Hx as [E|Hx].
+  - subst. rewrite look_head. symmetry. apply Hroot. left. reflexivity.
+  - rewrite look_skip by (intros E; subst; contradiction).
+    apply IHc; [congruence | assumption | | assumption]. intros a b Hab. apply Hroot. right. exact Hab.
+Qed.
+
+(* relabelling depends only on the uids mentioned in the tree; under [iso] all mentioned uids are entity uids *)
+Lemma relabel_ext f g s : forall t', iso s t' -> (forall x, In x (uids s) -> f x = g x) -> relabel f s = relabel g s.
+Proof.
+  induction s as [n ch IH] using tree_ind2. intros t' Hi Hfg. inversion Hi as [n0 n' ch0 ch' Hpl Hpg Hch]; subst.
+  simpl. f_equal.
+  - f_equal; [apply Hfg; simpl; left; reflexivity|].
+    clear -Hpg Hfg. induction Hpg as [|a b l m [_ [Hincl _]] _ IHp]; simpl; [reflexivity|]. f_equal; [|exact IHp].
+    unfold relabel_pg. f_equal. apply map_ext_in. intros x Hx. apply Hfg. simpl. right.
+    apply Hincl in Hx. apply in_map_iff in Hx. destruct Hx as [c [Ec Hc]]. apply in_flat_map. exists c. split; [exact Hc|].
+    subst. apply iso_root_in.
+  - apply map_ext_in. intros c Hc. rewrite Forall_forall in IH.
+    destruct (Forall2_in_l _ _ _ _ Hch Hc) as [c' [_ Hic]].
+    apply (IH c Hc c' Hic). intros x Hx. apply Hfg. simpl. right. apply in_flat_map. exists c. split; assumption.
+Qed.
+
+(* erasing property-group uids *)
+Lemma erase_pg_relabel f g : erase_pg (relabel_pg f g) = relabel_pg f g.
+Proof. reflexivity. Qed.
+
+Theorem iso_relabel : forall s t',
+  iso s t' -> NoDup (uids s) ->
+  erase t' = erase (relabel (look (combine (uids s) (uids t'))) s).
+Proof.
+  induction s as [n ch IH] using tree_ind2. intros t' Hi Hnd.
+  inversion Hi as [n0 n' ch0 ch' Hpl Hpg Hch]; subst.
+  simpl in Hnd. inversion Hnd as [|a l Hnot Hnd']; subst.
+  set (Z := combine (uids (T n ch)) (uids (T n' ch'))).
+  assert (HZ : Z = (nuid n, nuid n') :: combine (flat_map uids ch) (flat_map uids ch')) by reflexivity.
+  assert (Hskip : forall x, In x (flat_map uids ch) -> look Z x = look (combine (flat_map uids ch) (flat_map uids ch')) x).
+  { intros x Hx. rewrite HZ. apply look_skip. intros E. subst. contradiction. }
+  assert (Hlen : length ch = length ch') by (apply (Forall2_len _ _ _ Hch)).
+  simpl. f_equal.
+  - f_equal.
+    + rewrite HZ. symmetry. apply look_head.
+    + exact Hpl.
+    + rewrite map_map.
+      assert (Hroot : forall c c', In (c, c') (combine ch ch') -> look Z (root_uid c) = root_uid c').
+      { intros c c' Hin. rewrite Hskip.
+        - rewrite (look_children ch ch' Hch Hnd' c c' Hin) by apply iso_root_in.
+          apply look_combine_root. apply (Forall2_combine_in _ _ _ _ _ Hch Hin).
+        - apply in_flat_map. exists c. split; [apply (in_combine_both _ _ _ _ Hin) | apply iso_root_in]. }
+      assert (Hcm : forall x, In x (map root_uid ch) ->
+                     look (combine (map root_uid ch) (map root_uid ch')) x = look Z x).
+      { assert (Hndr : NoDup (map root_uid ch)).
+        { clear -Hnd'. induction ch as [|c r IHc]; simpl in *; [constructor|].
+          apply NoDup_app_parts in Hnd'. destruct Hnd' as [_ [H2 Hd]]. constructor; [|apply IHc; exact H2].
+          intros Hin. apply in_map_iff in Hin. destruct Hin as [c2 [E Hc2]].
+          apply (Hd (root_uid c)); [apply iso_root_in|]. apply in_flat_map. exists c2. split; [exact Hc2|]. rewrite <- E. apply iso_root_in. }
+        intros x Hx. apply (look_roots (look Z) ch ch' Hlen Hndr Hroot x Hx). }
+      clear -Hpg Hcm. induction Hpg as [|a b l m [Ht [Hincl Hp]] _ IHp]; simpl; [reflexivity|]. f_equal; [|exact IHp].
+      unfold erase_pg, relabel_pg. simpl. f_equal; [exact Ht|]. rewrite Hp. apply map_ext_in. intros x Hx. apply Hcm. apply Hincl. exact Hx.
+  - rewrite map_map. apply map_eq_combine; [exact Hlen|]. intros c c' Hin.
+    assert (Hic : iso c c') by apply (Forall2_combine_in _ _ _ _ _ Hch Hin).
+    assert (Hcin : In c ch) by apply (in_combine_both _ _ _ _ Hin).
+    rewrite Forall_forall in IH.
+    assert (Hndc : NoDup (uids c)).
+    { clear -Hnd' Hcin. induction ch as [|a r IHr]; simpl in *; [contradiction|].
+      apply NoDup_app_parts in Hnd'. destruct Hnd' as [H1 [H2 _]]. destruct Hcin as [E|Hc]; [subst; exact H1 | apply IHr; assumption]. }
+    rewrite (IH c Hcin c' Hic Hndc). f_equal.
+    apply (relabel_ext _ _ c c' Hic). intros x Hx.
+    rewrite Hskip by (apply in_flat_map; exists c; split; assumption).
+    symmetry. apply (look_children ch ch' Hch Hnd' c c' Hin x Hx).
+Qed.
+
+(* ------------------------------------------------------------------ the specification tree without mask / options *)
+(* the source subtree restricted to the entities the copy visits *)
+Fixpoint prune (t : tree) : tree :=
+  match t with
+  | T n ch => T n ((fix go (l : list tree) : list tree :=
+                      match l with [] => [] | c :: r => if copied_child (pl n) c then prune c :: go r else go r end) ch)
+  end.
+
+Fixpoint prune_list (keep : tree -> bool) (l : list tree) : list tree :=
+  match l with [] => [] | c :: r => if keep c then prune c :: prune_list keep r else prune_list keep r end.
+
+Lemma prune_unfold n ch : prune (T n ch) = T n (prune_list (copied_child (pl n)) ch).
+Proof.
+  simpl. f_equal. induction ch as [|c r IH]; simpl; [reflexivity|]. destruct (copied_child (pl n) c); [f_equal|]; exact IH.
+Qed.
+
+(* every child is visited: no CustomGroup below a group, grids hold data only *)
+Fixpoint all_copied (t : tree) : Prop :=
+  match t with
+  | T n ch => (fix all (l : list tree) : Prop :=
+                 match l with [] => True | c :: r => copied_child (pl n) c = true /\ all_copied c /\ all r end) ch
+  end.
+
+Lemma prune_all t : all_copied t -> prune t = t.
+Proof.
+  induction t as [n ch IH] using tree_ind2. intros H. rewrite prune_unfold. f_equal.
+  simpl in H. induction ch as [|c r IHr]; simpl; [reflexivity|].
+  destruct H as [Hc [Ha Hr]]. rewrite Hc. inversion IH; subst. f_equal; [auto | apply IHr; assumption].
+Qed.
+
+Definition plain (cx : ctx) : Prop := cmk cx = CNone /\ omit_meta cx = false /\ over cx = [] /\ with_children cx = true.
+
+Lemma masked_payload_none cx p : cmk cx = CNone -> masked_payload cx p = Ok p.
+Proof.
+  intros H. unfold masked_payload. rewrite H. destruct (knd p); reflexivity.
+Qed.
+
+Lemma payload_id p : set_attrs (set_meta p (meta p)) (overrides [] (attrs p)) = p.
+Proof. destruct p; reflexivity. Qed.
+
+Lemma child_ctx_plain cx p p' c : cmk cx = CNone -> plain (child_ctx cx p p' c).
+Proof.
+  intros H. unfold plain, child_ctx; simpl. repeat split. unfold child_cmask. rewrite H.
+  destruct (knd p); reflexivity.
+Qed.
+
+Theorem spec_tree_plain : forall t cx, plain cx -> spec_tree t cx = Ok (prune t).
+Proof.
+  induction t as [n ch IH] using tree_ind2. intros cx [Hm [Ho [Hv Hw]]].
+  rewrite spec_tree_unfold, prune_unfold, masked_payload_none by exact Hm. cbv zeta.
+  rewrite Ho, Hv, Hw, payload_id. simpl negb. cbv iota.
+  assert (E : spec_list (copied_child (pl n)) (fun c => spec_tree c (child_ctx cx (pl n) (pl n) c)) ch
+              = Ok (prune_list (copied_child (pl n)) ch)).
+  { induction ch as [|c r IHr]; simpl; [reflexivity|]. inversion IH; subst.
+    destruct (copied_child (pl n) c); [|apply IHr; assumption].
+    rewrite H1 by (apply child_ctx_plain; exact Hm). rewrite IHr by assumption. reflexivity. }
+  rewrite E. destruct n; reflexivity.
+Qed.
+
+(* the uids of the specification tree are the copied uids of the source *)
+Fixpoint copied_list (keep : tree -> bool) (l : list tree) : list uid :=
+  match l with [] => [] | c :: r => if keep c then copied_uids true c ++ copied_list keep r else copied_list keep r end.
+
+Lemma copied_uids_unfold b n ch :
+  copied_uids b (T n ch) = nuid n :: (if b then copied_list (copied_child (pl n)) ch else []).
+Proof.
+  simpl. f_equal. destruct b; [|reflexivity].
+  induction ch as [|c r IH]; simpl; [reflexivity|]. destruct (copied_child (pl n) c); [f_equal|]; exact IH.
+Qed.
+
+Lemma spec_tree_uids : forall t cx s, spec_tree t cx = Ok s -> uids s = copied_uids (with_children cx) t.
+Proof.
+  induction t as [n ch IH] using tree_ind2. intros cx s E.
+  rewrite spec_tree_unfold in E. rewrite copied_uids_unfold.
+  destruct (masked_payload cx (pl n)) as [p1|]; [|discriminate]. cbv zeta in E.
+  destruct (with_children cx); simpl negb in E; cbv iota in E.
+  - destruct (spec_list _ _ ch) as [sl|] eqn:Es; [|discriminate]. inversion E; subst. simpl. f_equal.
+    clear E. revert sl Es. induction ch as [|c r IHr]; simpl; intros sl Es; [inversion Es; reflexivity|].
+    inversion IH; subst. destruct (copied_child (pl n) c).
+    + destruct (spec_tree c _) as [c'|] eqn:Ec; [|discriminate]. destruct (spec_list _ _ r) as [r'|] eqn:Er; [|discriminate].
+      inversion Es; subst. simpl. f_equal; [apply (H1 _ _ Ec) | apply IHr; [assumption | reflexivity]].
+    + apply IHr; assumption.
+  - inversion E; subst. reflexivity.
+Qed.
+
+Lemma copied_uids_all t : all_copied t -> copied_uids true t = uids t.
+Proof.
+  induction t as [n ch IH] using tree_ind2. intros H. rewrite copied_uids_unfold. simpl. f_equal.
+  simpl in H. induction ch as [|c r IHr]; simpl; [reflexivity|]. destruct H as [Hc [Ha Hr]]. rewrite Hc.
+  inversion IH; subst. f_equal; [auto | apply IHr; assumption].
+Qed.
+
+(* ------------------------------------------------------------------ identifiers of the copy are new and distinct *)
+Definition st_ok (st : cst) : Prop := forall x, In x (used st) -> (x < nxt st)%N.
+
+Lemma alloc_spec u st :
+  st_ok st -> (u < nxt st)%N ->
+  let v := fst (alloc u st) in let st1 := snd (alloc u st) in
+  ~ In v (used st) /\ used st1 = v :: used st /\ (nxt st <= nxt st1)%N /\ st_ok st1 /\ usedpg st1 = usedpg st.
+Proof.
+  intros Hok Hu. unfold alloc. destruct (memN u (used st)) eqn:E; simpl.
+  - repeat split; try lia.
+    + intros Hin. apply Hok in Hin. lia.
+    + intros x [Hx|Hx]; simpl; [subst; lia | apply Hok in Hx; lia].
+  - apply memN_false in E. repeat split; try lia; [exact E|].
+    intros x [Hx|Hx]; simpl; [subst; exact Hu | apply Hok; exact Hx].
+Qed.
+
+Definition fresh_post (st : cst) (uu : list uid) (st' : cst) : Prop :=
+  NoDup uu /\ (forall x, In x uu -> ~ In x (used st))
+  /\ (forall x, In x (used st') <-> In x uu \/ In x (used st))
+  /\ (nxt st <= nxt st')%N /\ st_ok st'.
+
+Lemma mapM_fresh keep (f : tree -> cst -> res (tree * cst)) l :
+  Forall (fun c => forall st c' st', f c st = Ok (c', st') -> st_ok st -> (forall x, In x (uids c) -> (x < nxt st)%N) ->
+                   fresh_post st (uids c') st') l ->
+  forall st l' st', mapM_st keep f l st = Ok (l', st') -> st_ok st -> (forall x, In x (flat_map uids l) -> (x < nxt st)%N) ->
+  fresh_post st (flat_map uids l') st'.
+Proof.
+  induction 1 as [|c r Hc Hr IH]; simpl; intros st l' st' E Hok Hlt.
+  - inversion E; subst. simpl. split; [constructor|]. split; [intros x []|]. split; [intros x; split; [intros Hx; right; exact Hx | intros [[]|Hx]; exact Hx]|]. split; [lia | exact Hok].
+  - destruct (keep c).
+    + destruct (f c st) as [[c' st1]|] eqn:Ef; [|discriminate].
+      destruct (mapM_st keep f r st1) as [[r' st2]|] eqn:Er; [|discriminate]. inversion E; subst.
+      destruct (Hc _ _ _ Ef Hok) as [N1 [D1 [U1 [L1 O1]]]]; [intros x Hx; apply Hlt; apply in_or_app; left; exact Hx|].
+      destruct (IH _ _ _ Er O1) as [N2 [D2 [U2 [L2 O2]]]]; [intros x Hx; apply N.lt_le_trans with (nxt st); [apply Hlt; apply in_or_app; right; exact Hx | exact L1]|].
+      simpl. repeat split.
+      * apply NoDup_app_join; [exact N1 | exact N2 |]. intros x Hx1 Hx2. apply (D2 x Hx2). apply U1. left. exact Hx1.
+      * intros x Hx Hin. apply in_app_or in Hx. destruct Hx as [Hx|Hx]; [apply (D1 x Hx Hin) | apply (D2 x Hx); apply U1; right; exact Hin].
+      * intros Hx. apply U2 in Hx. destruct Hx as [Hx|Hx]; [left; apply in_or_app; right; exact Hx|].
+        apply U1 in Hx. destruct Hx as [Hx|Hx]; [left; apply in_or_app; left; exact Hx | right; exact Hx].
+      * intros [Hx|Hx]; apply U2; [apply in_app_or in Hx; destruct Hx as [Hx|Hx]; [right; apply U1; left; exact Hx | left; exact Hx] | right; apply U1; right; exact Hx].
+      * lia.
+      * exact O2.
+    + apply (IH _ _ _ E Hok). intros x Hx. apply Hlt. apply in_or_app. right. exact Hx.
+Qed.
+
+Theorem copy_tree_fresh : forall t cx st t' st',
+  copy_tree t cx st = Ok (t', st') -> st_ok st -> (forall x, In x (uids t) -> (x < nxt st)%N) ->
+  fresh_post st (uids t') st'.
+Proof.
+  induction t as [n ch IH] using tree_ind2. intros cx st t' st' E Hok Hlt. simpl in E.
+  destruct (masked_payload cx (pl n)) as [p1|]; [|discriminate]. cbv zeta in E.
+  destruct (alloc_spec (nuid n) st Hok) as [A1 [A2 [A3 [A4 A5]]]]; [apply Hlt; simpl; left; reflexivity|].
+  set (u := fst (alloc (nuid n) st)) in *. set (st1 := snd (alloc (nuid n) st)) in *.
+  destruct (negb (with_children cx)).
+  - inversion E; subst. simpl. repeat split.
+    + constructor; [intros []|constructor].
+    + intros x [Hx|[]]. subst. exact A1.
+    + intros Hx. fold st1 in Hx. rewrite A2 in Hx. destruct Hx as [Hx|Hx]; [left; left; exact Hx | right; exact Hx].
+    + intros [[Hx|[]]|Hx]; fold st1; rewrite A2; [left; exact Hx | right; exact Hx].
+    + exact A3.
+    + exact A4.
+  - destruct (mapM_st _ _ ch st1) as [[ch' st2]|] eqn:Em; [|discriminate].
+    destruct (copy_pgs _ (npgs n) st2) as [[pgs' st3]|] eqn:Ep; [|discriminate]. inversion E; subst.
+    assert (HF : Forall (fun c => forall st0 c' st0',
+                  copy_tree c (child_ctx cx (pl n) (set_attrs (set_meta p1 (if omit_meta cx then None else meta p1)) (overrides (over cx) (attrs p1))) c) st0 = Ok (c', st0') ->
+                  st_ok st0 -> (forall x, In x (uids c) -> (x < nxt st0)%N) -> fresh_post st0 (uids c') st0') ch).
+    { apply Forall_forall. intros c Hc st0 c' st0' Hcopy. rewrite Forall_forall in IH. apply (IH c Hc _ _ _ _ Hcopy). }
+    destruct (mapM_fresh _ _ ch HF _ _ _ Em A4) as [N2 [D2 [U2 [L2 O2]]]].
+    { intros x Hx. apply N.lt_le_trans with (nxt st); [apply Hlt; simpl; right; exact Hx | exact A3]. }
+    apply copy_pgs_spec in Ep. destruct Ep as [_ [Eu En]].
+    simpl. repeat split.
+    + constructor; [|exact N2]. intros Hin. apply (D2 _ Hin). rewrite A2. left. reflexivity.
+    + intros x [Hx|Hx] Hin; [subst; exact (A1 Hin) | apply (D2 x Hx); rewrite A2; right; exact Hin].
+    + rewrite Eu. intros Hx. apply U2 in Hx. destruct Hx as [Hx|Hx]; [left; right; exact Hx|].
+      rewrite A2 in Hx. destruct Hx as [Hx|Hx]; [left; left; exact Hx | right; exact Hx].
+    + rewrite Eu. intros [[Hx|Hx]|Hx]; apply U2; [right; rewrite A2; left; exact Hx | left; exact Hx | right; rewrite A2; right; exact Hx].
+    + lia.
+    + intros x Hx. rewrite Eu in Hx. apply O2 in Hx. lia.
+Qed.
+
+(* ------------------------------------------------------------------ lookups, insertion, update *)
+Fixpoint tfind_list (u : uid) (l : list tree) : option tree :=
+  match l with [] => None | c :: r => match tfind u c with Some x => Some x | None => tfind_list u r end end.
+
+Lemma tfind_unfold u n ch : tfind u (T n ch) = if N.eqb u (nuid n) then Some (T n ch) else tfind_list u ch.
+Proof.
+  simpl. destruct (N.eqb u (nuid n)); [reflexivity|].
+  induction ch as [|c r IH]; simpl; [reflexivity|]. destruct (tfind u c); [reflexivity | exact IH].
+Qed.
+
+Lemma tfind_notin : forall t u, ~ In u (uids t) -> tfind u t = None.
+Proof.
+  induction t as [n ch IH] using tree_ind2. intros u Hn. rewrite tfind_unfold.
+  destruct (N.eqb u (nuid n)) eqn:E; [apply N.eqb_eq in E; subst; exfalso; apply Hn; simpl; left; reflexivity|].
+  simpl in Hn. induction ch as [|c r IHr]; simpl; [reflexivity|]. inversion IH; subst.
+  rewrite H1 by (intros Hin; apply Hn; right; apply in_or_app; left; exact Hin).
+  apply IHr; [assumption|]. intros [Hx|Hx]; apply Hn; [left; exact Hx | right; simpl; apply in_or_app; right; exact Hx].
+Qed.
+
+Lemma tfind_some : forall t u x, tfind u t = Some x -> root_uid x = u /\ incl (uids x) (uids t).
+Proof.
+  induction t as [n ch IH] using tree_ind2. intros u x E. rewrite tfind_unfold in E.
+  destruct (N.eqb u (nuid n)) eqn:Eu.
+  - inversion E; subst. apply N.eqb_eq in Eu. split; [symmetry; exact Eu | apply incl_refl].
+  - induction ch as [|c r IHr]; simpl in E; [discriminate|]. inversion IH; subst.
+    destruct (tfind u c) eqn:Ec.
+    + inversion E; subst. destruct (H1 _ _ Ec) as [Hr Hi]. split; [exact Hr|].
+      intros y Hy. simpl. right. apply in_or_app. left. apply Hi. exact Hy.
+    + destruct (IHr H2 E) as [Hr Hi]. split; [exact Hr|]. intros y Hy. apply Hi in Hy. simpl in *.
+      destruct Hy as [Hy|Hy]; [left; exact Hy | right; apply in_or_app; right; exact Hy].
+Qed.
+
+Lemma tfind_in t u x : tfind u t = Some x -> In u (uids t).
+Proof. intros E. destruct (tfind_some _ _ _ E) as [Hr Hi]. apply Hi. rewrite <- Hr. apply iso_root_in. Qed.
+
+Lemma insert_root p x t : root_node (insert_child p x t) = root_node t.
+Proof. destruct t as [n ch]. simpl. destruct (N.eqb p (nuid n)); reflexivity. Qed.
+
+Lemma insert_root_uid p x t : root_uid (insert_child p x t) = root_uid t.
+Proof. unfold root_uid. rewrite insert_root. reflexivity. Qed.
+
+Lemma insert_notin : forall t p x, ~ In p (uids t) -> insert_child p x t = t.
+Proof.
+  induction t as [n ch IH] using tree_ind2. intros p x Hn. simpl.
+  destruct (N.eqb p (nuid n)) eqn:E; [apply N.eqb_eq in E; subst; exfalso; apply Hn; simpl; left; reflexivity|].
+  f_equal. simpl in Hn. induction ch as [|c r IHr]; simpl; [reflexivity|]. inversion IH; subst. f_equal.
+  - apply H1. intros Hin. apply Hn. right. apply in_or_app. left. exact Hin.
+  - apply IHr; [assumption|]. intros [Hx|Hx]; apply Hn; [left; exact Hx | right; apply in_or_app; right; exact Hx].
+Qed.
+
+(* an entity other than the target parent keeps its record and its list of children *)
+Lemma insert_view_other : forall t p x u,
+  u <> p -> ~ In u (uids x) ->
+  option_map node_view (tfind u (insert_child p x t)) = option_map node_view (tfind u t).
+Proof.
+  induction t as [n ch IH] using tree_ind2. intros p x u Hup Hux.
+  simpl insert_child. destruct (N.eqb p (nuid n)) eqn:Ep.
+  - apply N.eqb_eq in Ep. subst p. rewrite !tfind_unfold.
+    destruct (N.eqb u (nuid n)) eqn:Eu; [apply N.eqb_eq in Eu; contradiction|].
+    clear IH. induction ch as [|c r IHr]; simpl.
+    + rewrite (tfind_notin x u Hux). reflexivity.
+    + destruct (tfind u c); [reflexivity | exact IHr].
+  - rewrite !tfind_unfold. destruct (N.eqb u (nuid n)) eqn:Eu.
+    + simpl. unfold node_view. simpl. rewrite map_map. f_equal. f_equal. apply map_ext. intros c. apply insert_root_uid.
+    + induction ch as [|c r IHr]; simpl; [reflexivity|]. inversion IH; subst.
+      specialize (H1 p x u Hup Hux).
+      destruct (tfind u (insert_child p x c)) eqn:E1; destruct (tfind u c) eqn:E2; simpl in H1; try discriminate.
+      * exact H1.
+      * apply IHr. assumption.
+Qed.
+
+(* the target parent keeps its record and gains the copy as last child *)
+Lemma insert_view_parent : forall t p x tp,
+  tfind p t = Some tp ->
+  option_map node_view (tfind p (insert_child p x t)) = Some (root_node tp, map root_uid (children tp) ++ [root_uid x]).
+Proof.
+  induction t as [n ch IH] using tree_ind2. intros p x tp E.
+  simpl insert_child. destruct (N.eqb p (nuid n)) eqn:Ep.
+  - rewrite tfind_unfold in E. rewrite Ep in E. inversion E; subst. rewrite tfind_unfold. rewrite Ep. simpl.
+    unfold node_view. simpl. rewrite map_app. reflexivity.
+  - rewrite tfind_unfold in *. rewrite Ep in *.
+    induction ch as [|c r IHr]; simpl in *; [discriminate|]. inversion IH; subst.
+    destruct (tfind p c) eqn:Ec.
+    + inversion E; subst. specialize (H1 p x tp Ec).
+      destruct (tfind p (insert_child p x c)); simpl in H1; [simpl; exact H1 | discriminate].
+    + assert (Hn : tfind p (insert_child p x c) = None).
+      { pose proof (tfind_in c p) as Hin.
+        destruct (tfind p (insert_child p x c)) eqn:E3; [|reflexivity].
+        destruct (in_dec N.eq_dec p (uids c)) as [Hi|Hi].
+        - exfalso. clear -Hi Ec. revert Ec. generalize (tfind_notin c p). intros Hnn.
+          (* p occurs in c, so tfind finds it *)
+          assert (Hs : exists y, tfind p c = Some y).
+          { clear Hnn. induction c as [m cs IHc] using tree_ind2. rewrite tfind_unfold.
+            destruct (N.eqb p (nuid m)) eqn:Em; [eexists; reflexivity|].
+            simpl in Hi. destruct Hi as [Hi|Hi]; [subst; rewrite N.eqb_refl in Em; discriminate|].
+            induction cs as [|d ds IHd]; simpl in *; [contradiction|]. inversion IHc; subst.
+            apply in_app_or in Hi. destruct (tfind p d) eqn:Ed; [eexists; reflexivity|].
+            destruct Hi as [Hi|Hi]; [destruct (H1 Hi) as [y Hy]; congruence | apply IHd; assumption]. }
+          destruct Hs as [y Hy]. congruence.
+        - rewrite (insert_notin c p x Hi) in E3. congruence. }
+      rewrite Hn. apply IHr; assumption.
+Qed.
+
+(* a subtree that does not contain the target parent is untouched *)
+Lemma insert_subtree_same : forall t p x u s,
+  tfind u t = Some s -> ~ In p (uids s) -> ~ In u (uids x) -> tfind u (insert_child p x t) = Some s.
+Proof.
+  induction t as [n ch IH] using tree_ind2. intros p x u s E Hp Hux.
+  rewrite tfind_unfold in E. destruct (N.eqb u (nuid n)) eqn:Eu.
+  - inversion E; subst. rewrite (insert_notin _ p x Hp). rewrite tfind_unfold, Eu. reflexivity.
+  - simpl insert_child. destruct (N.eqb p (nuid n)) eqn:Ep.
+    + rewrite tfind_unfold, Eu. clear IH. induction ch as [|c r IHr]; simpl in *; [discriminate|].
+      destruct (tfind u c); [exact E | apply IHr; exact E].
+    + rewrite tfind_unfold, Eu. induction ch as [|c r IHr]; simpl in *; [discriminate|]. inversion IH; subst.
+      destruct (tfind u c) eqn:Ec.
+      * inversion E; subst. rewrite (H1 p x u s Ec Hp Hux). reflexivity.
+      * pose proof (insert_view_other c p x u) as Hv.
+        destruct (N.eq_dec u p) as [Eup|Nup].
+        -- subst p. exfalso. apply Hp. destruct (tfind_some _ _ _ (eq_trans (eq_sym (tfind_unfold u n (c :: r))) (f_equal (fun z => z) eq_refl))) as [_ _] || idtac.
+           clear -E Hp IHr H2. destruct (tfind_some _ _ _ (ltac:(exact E) : tfind_list u r = Some s) ) || idtac.
+           (* the found subtree is rooted at u *)
+           assert (Hr : root_uid s = u).
+           { clear -E. induction r as [|d ds IHd]; simpl in E; [discriminate|]. destruct (tfind u d) eqn:Ed; [inversion E; subst; apply (tfind_some _ _ _ Ed) | apply IHd; exact E]. }
+           rewrite <- Hr. apply iso_root_in.
+        -- specialize (Hv Nup Hux). rewrite Ec in Hv. destruct (tfind u (insert_child p x c)); [simpl in Hv; discriminate|].
+           apply IHr; assumption.
+Qed.
+
+Lemma update_root_uid y f t : (forall n, nuid (f n) = nuid n) -> root_uid (update_node y f t) = root_uid t.
+Proof. intros Hf. destruct t as [n ch]. simpl. destruct (N.eqb y (nuid n)); simpl; [apply Hf | reflexivity]. Qed.
+
+(* editing entity y leaves the record and the children list of every other entity unchanged *)
+Lemma update_view_other : forall t y f u,
+  (forall n, nuid (f n) = nuid n) -> u <> y ->
+  option_map node_view (tfind u (update_node y f t)) = option_map node_view (tfind u t).
+Proof.
+  induction t as [n ch IH] using tree_ind2. intros y f u Hf Huy. simpl update_node.
+  destruct (N.eqb y (nuid n)) eqn:Ey.
+  - apply N.eqb_eq in Ey. rewrite !tfind_unfold. rewrite Hf.
+    destruct (N.eqb u (nuid n)) eqn:Eu; [apply N.eqb_eq in Eu; congruence | reflexivity].
+  - rewrite !tfind_unfold. destruct (N.eqb u (nuid n)) eqn:Eu.
+    + simpl. unfold node_view. simpl. rewrite map_map. f_equal. f_equal. apply map_ext. intros c. apply update_root_uid. exact Hf.
+    + induction ch as [|c r IHr]; simpl; [reflexivity|]. inversion IH; subst.
+      specialize (H1 y f u Hf Huy).
+      destruct (tfind u (update_node y f c)) eqn:E1; destruct (tfind u c) eqn:E2; simpl in H1; try discriminate.
+      * exact H1.
+      * apply IHr. assumption.
+Qed.
+
+(* ------------------------------------------------------------------ the world-level copy *)
+Lemma ws_set_same w b t nx : ws (set_ws w b t nx) b = t.
+Proof. destruct b; reflexivity. Qed.
+Lemma ws_set_other w b t nx : ws (set_ws w b t nx) (negb b) = ws w (negb b).
+Proof. destruct b; reflexivity. Qed.
+Lemma heap_set w b t nx : heap (set_ws w b t nx) = heap w.
+Proof. destruct b; reflexivity. Qed.
+Lemma wnext_set w b t nx : wnext (set_ws w b t nx) = nx.
+Proof. destruct b; reflexivity. Qed.
+
+Definition st0_of (w : world) (tws : bool) : cst :=
+  {| used := uids (ws w tws); usedpg := pguids (ws w tws); nxt := wnext w |}.
+
+Lemma copy_core w sws u tws p o w' nu r :
+  copy w sws u tws p o = Ok (w', nu, r) ->
+  exists t tp t' st',
+    tfind u (ws w sws) = Some t /\ tfind p (ws w tws) = Some tp
+    /\ (Bool.eqb sws tws && memN p (uids t) = false)
+    /\ nocopy (pl (root_node t)) = false
+    /\ copy_tree t (top_ctx o (pl (root_node tp))) (st0_of w tws) = Ok (t', st')
+    /\ nu = root_uid t' /\ r = combine (copied_uids (o_children o) t) (uids t')
+    /\ let w1 := set_ws w tws (insert_child p t' (ws w tws)) (nxt st') in
+       w' = if clears o t then set_ws w1 sws (replace_tree u (clear_src t) (ws w1 sws)) (wnext w1) else w1.
+Proof.
+  unfold copy. destruct (tfind u (ws w sws)) as [t|] eqn:Et; [|discriminate].
+  destruct (tfind p (ws w tws)) as [tp|] eqn:Ep; [|discriminate].
+  destruct (Bool.eqb sws tws && memN p (uids t)) eqn:Ec; [discriminate|].
+  destruct (nocopy (pl (root_node t))) eqn:En; [discriminate|].
+  destruct (negb (parent_ok _ _)); [discriminate|].
+  fold (st0_of w tws).
+  destruct (copy_tree t _ _) as [[t' st']|] eqn:Ect; [|discriminate]. cbv zeta. intros E. inversion E; subst.
+  exists t, tp, t', st'. repeat split; try reflexivity; assumption.
+Qed.
+
+Definition world_ok (w : world) : Prop :=
+  (forall x, In x (uids (wsA w)) -> (x < wnext w)%N) /\ (forall x, In x (uids (wsB w)) -> (x < wnext w)%N).
+
+Lemma world_ok_ws w b : world_ok w -> forall x, In x (uids (ws w b)) -> (x < wnext w)%N.
+Proof. intros [Ha Hb]. destruct b; assumption. Qed.
+
+Theorem copy_frame w sws u tws p o w' nu r :
+  copy w sws u tws p o = Ok (w', nu, r) -> o_clear o = false -> world_ok w ->
+  heap w' = heap w
+  /\ ws w' (negb tws) = ws w (negb tws)
+  /\ (forall x, x <> p -> In x (uids (ws w tws)) -> node_of x (ws w' tws) = node_of x (ws w tws))
+  /\ (exists n kids, node_of p (ws w tws) = Some (n, kids) /\ node_of p (ws w' tws) = Some (n, kids ++ [nu]))
+  /\ ~ In nu (uids (ws w tws))
+  /\ tfind u (ws w' sws) = tfind u (ws w sws).
+Proof.
+  intros Hc Hclr Hok. destruct (copy_core _ _ _ _ _ _ _ _ _ Hc) as [t [tp [t' [st' [Et [Ep [Hrec [_ [Hct [Hnu [_ Hw]]]]]]]]]]].
+  cbv zeta in Hw. unfold clears in Hw. rewrite Hclr in Hw. simpl in Hw. subst w' nu.
+  assert (Hst : st_ok (st0_of w tws)) by (intros x Hx; simpl in *; apply (world_ok_ws w tws Hok x Hx)).
+  assert (Hsrc : forall x, In x (uids t) -> (x < nxt (st0_of w tws))%N).
+  { intros x Hx. simpl. apply (world_ok_ws w sws Hok). apply (proj2 (tfind_some _ _ _ Et)). exact Hx. }
+  destruct (copy_tree_fresh _ _ _ _ _ Hct Hst Hsrc) as [Hnd [Hdisj _]]. simpl in Hdisj.
+  rewrite heap_set, ws_set_other, ws_set_same. repeat split.
+  - intros x Hxp Hx. unfold node_of. apply insert_view_other; [exact Hxp|]. intros Hin. apply (Hdisj x Hin Hx).
+  - exists (root_node tp), (map root_uid (children tp)). split.
+    + unfold node_of. rewrite Ep. reflexivity.
+    + unfold node_of. apply insert_view_parent. exact Ep.
+  - apply Hdisj. apply iso_root_in.
+  - destruct (Bool.eqb sws tws) eqn:Eb.
+    + apply eqb_prop in Eb. subst tws. rewrite ws_set_same. rewrite Et. apply insert_subtree_same; [exact Et | |].
+      * simpl in Hrec. apply memN_false. exact Hrec.
+      * intros Hin. apply (Hdisj u Hin). apply (tfind_in _ _ _ Et).
+    + assert (sws = negb tws) by (destruct sws, tws; simpl in Eb; try discriminate; reflexivity). subst sws.
+      rewrite ws_set_other. reflexivity.
+Qed.
+
+Lemma map_id_in {A} (f : A -> A) l : (forall a, In a l -> f a = a) -> map f l = l.
+Proof. induction l as [|a r IH]; simpl; intros H; [reflexivity|]. f_equal; [apply H; left; reflexivity | apply IH; intros; apply H; right; assumption]. Qed.
+
+(* ------------------------------------------------------------------ uids after the insertion *)
+Lemma insert_uids_perm : forall t p x,
+  In p (uids t) -> NoDup (uids t) -> Permutation (uids (insert_child p x t)) (uids t ++ uids x).
+Proof.
+  induction t as [n ch IH] using tree_ind2. intros p x Hin Hnd. simpl insert_child.
+  destruct (N.eqb p (nuid n)) eqn:Ep.
+  - simpl. apply perm_skip. rewrite flat_map_app. simpl. rewrite app_nil_r. apply Permutation_refl.
+  - simpl in Hin. destruct Hin as [Hin|Hin]; [subst; rewrite N.eqb_refl in Ep; discriminate|].
+    simpl. apply perm_skip. simpl in Hnd. inversion Hnd as [|a l _ Hnd']; subst. clear Hnd.
+    induction ch as [|c r IHr]; simpl in *; [contradiction|]. inversion IH; subst.
+    apply NoDup_app_parts in Hnd'. destruct Hnd' as [Hc [Hr Hd]].
+    apply in_app_or in Hin. destruct Hin as [Hin|Hin].
+    + assert (Er : map (insert_child p x) r = r).
+      { apply map_id_in. intros d Hd'. apply insert_notin. intros Hp. apply (Hd p Hin). apply in_flat_map. exists d. split; assumption. }
+      rewrite Er. eapply Permutation_trans; [apply Permutation_app_tail; apply (H1 p x Hin Hc)|].
+      rewrite <- !app_assoc. apply Permutation_app_head. apply Permutation_app_comm.
+    + assert (Ec : insert_child p x c = c) by (apply insert_notin; intros Hp; apply (Hd p Hp Hin)).
+      rewrite Ec. rewrite <- app_assoc. apply Permutation_app_head. apply IHr; assumption.
+Qed.
+
+Theorem copy_uids_unique w sws u tws p o w' nu r :
+  copy w sws u tws p o = Ok (w', nu, r) -> o_clear o = false -> world_ok w ->
+  NoDup (uids (ws w tws)) -> NoDup (uids (ws w' tws)).
+Proof.
+  intros Hc Hclr Hok Hnd. destruct (copy_core _ _ _ _ _ _ _ _ _ Hc) as [t [tp [t' [st' [Et [Ep [Hrec [_ [Hct [Hnu [_ Hw]]]]]]]]]]].
+  cbv zeta in Hw. unfold clears in Hw. rewrite Hclr in Hw. simpl in Hw. subst w' nu.
+  assert (Hst : st_ok (st0_of w tws)) by (intros x Hx; simpl in *; apply (world_ok_ws w tws Hok x Hx)).
+  assert (Hsrc : forall x, In x (uids t) -> (x < nxt (st0_of w tws))%N).
+  { intros x Hx. simpl. apply (world_ok_ws w sws Hok). apply (proj2 (tfind_some _ _ _ Et)). exact Hx. }
+  destruct (copy_tree_fresh _ _ _ _ _ Hct Hst Hsrc) as [Hnd' [Hdisj _]]. simpl in Hdisj.
+  rewrite ws_set_same.
+  eapply Permutation_NoDup; [apply Permutation_sym; apply insert_uids_perm; [apply (tfind_in _ _ _ Ep) | exact Hnd]|].
+  apply NoDup_app_join; [exact Hnd | exact Hnd' |]. intros x Hx Hx'. apply (Hdisj x Hx' Hx).
+Qed.
+
+(* the copy is found below the target parent *)
+Lemma insert_find_new : forall t p x tp,
+  tfind p t = Some tp -> ~ In (root_uid x) (uids t) -> tfind (root_uid x) (insert_child p x t) = Some x.
+Proof.
+  induction t as [n ch IH] using tree_ind2. intros p x tp E Hn. simpl insert_child.
+  assert (Hroot : N.eqb (root_uid x) (nuid n) = false).
+  { destruct (N.eqb (root_uid x) (nuid n)) eqn:Ex; [|reflexivity]. apply N.eqb_eq in Ex. exfalso. apply Hn. simpl. left. symmetry. exact Ex. }
+  assert (Hself : tfind (root_uid x) x = Some x).
+  { destruct x as [m cs]. rewrite tfind_unfold. unfold root_uid. simpl. rewrite N.eqb_refl. reflexivity. }
+  rewrite tfind_unfold in E. destruct (N.eqb p (nuid n)) eqn:Ep.
+  - rewrite tfind_unfold, Hroot. clear IH E. simpl in Hn.
+    induction ch as [|c r IHr]; simpl; [rewrite Hself; reflexivity|].
+    rewrite (tfind_notin c) by (intros Hin; apply Hn; right; apply in_or_app; left; exact Hin).
+    apply IHr. intros [Hx|Hx]; apply Hn; [left; exact Hx | right; apply in_or_app; right; exact Hx].
+  - rewrite tfind_unfold, Hroot. simpl in Hn.
+    induction ch as [|c r IHr]; simpl in *; [discriminate|]. inversion IH; subst.
+    destruct (tfind p c) eqn:Ec.
+    + inversion E; subst. rewrite (H1 p x tp Ec); [reflexivity|]. intros Hin. apply Hn. right. apply in_or_app. left. exact Hin.
+    + assert (Hpc : ~ In p (uids c)).
+      { intros Hin. clear -Hin Ec. revert Ec. induction c as [m cs IHc] using tree_ind2. rewrite tfind_unfold.
+        destruct (N.eqb p (nuid m)) eqn:Em; [discriminate|]. simpl in Hin.
+        destruct Hin as [Hin|Hin]; [subst; rewrite N.eqb_refl in Em; discriminate|].
+        induction cs as [|d ds IHd]; simpl in *; [contradiction|]. inversion IHc; subst.
+        apply in_app_or in Hin. destruct (tfind p d) eqn:Ed; [discriminate|].
+        destruct Hin as [Hin|Hin]; [intros _; apply (H1 Hin eq_refl) | apply IHd; assumption]. }
+      rewrite (insert_notin c p x Hpc).
+      rewrite (tfind_notin c) by (intros Hin; apply Hn; right; apply in_or_app; left; exact Hin).
+      apply IHr; [assumption | exact E |]. intros [Hx|Hx]; apply Hn; [left; exact Hx | right; apply in_or_app; right; exact Hx].
+Qed.
+
+Lemma copied_uids_incl : forall t b, incl (copied_uids b t) (uids t).
+Proof.
+  induction t as [n ch IH] using tree_ind2. intros b. rewrite copied_uids_unfold. simpl.
+  intros x [Hx|Hx]; [left; exact Hx|]. right. destruct b; [|contradiction].
+  induction ch as [|c r IHr]; simpl in *; [contradiction|]. inversion IH; subst.
+  destruct (copied_child (pl n) c).
+  - apply in_app_or in Hx. apply in_or_app. destruct Hx as [Hx|Hx]; [left; apply (H1 true); exact Hx | right; apply IHr; assumption].
+  - apply in_or_app. right. apply IHr; assumption.
+Qed.
+
+Lemma copied_uids_nodup : forall t b, NoDup (uids t) -> NoDup (copied_uids b t).
+Proof.
+  induction t as [n ch IH] using tree_ind2. intros b Hnd. rewrite copied_uids_unfold. simpl in Hnd.
+  inversion Hnd as [|a l Hna Hnd']; subst. constructor.
+  - intros Hin. apply Hna. destruct b; [|contradiction].
+    clear -Hin. induction ch as [|c r IHr]; simpl in *; [contradiction|].
+    destruct (copied_child (pl n) c); [|apply in_or_app; right; apply IHr; exact Hin].
+    apply in_app_or in Hin. apply in_or_app. destruct Hin as [Hin|Hin]; [left; apply (copied_uids_incl c true); exact Hin | right; apply IHr; exact Hin].
+  - destruct b; [|constructor]. clear Hna Hnd. induction ch as [|c r IHr]; simpl in *; [constructor|]. inversion IH; subst.
+    apply NoDup_app_parts in Hnd'. destruct Hnd' as [Hc [Hr Hd]].
+    destruct (copied_child (pl n) c); [|apply IHr; assumption].
+    apply NoDup_app_join; [apply H1; exact Hc | apply IHr; assumption |].
+    intros x Hx Hx'. apply (Hd x); [apply (copied_uids_incl c true); exact Hx|].
+    clear -Hx'. induction r as [|d ds IHd]; simpl in *; [contradiction|].
+    destruct (copied_child (pl n) d); [|apply in_or_app; right; apply IHd; exact Hx'].
+    apply in_app_or in Hx'. apply in_or_app. destruct Hx' as [Hx'|Hx']; [left; apply (copied_uids_incl d true); exact Hx' | right; apply IHd; exact Hx'].
+Qed.
+
+(* the copy, as seen in the new world, is the specification tree relabelled through the returned uid map *)
+Theorem copy_iso_world w sws u tws p o w' nu r :
+  copy w sws u tws p o = Ok (w', nu, r) -> o_clear o = false -> world_ok w ->
+  exists t tp s t',
+    tfind u (ws w sws) = Some t /\ tfind p (ws w tws) = Some tp
+    /\ spec_tree t (top_ctx o (pl (root_node tp))) = Ok s
+    /\ tfind nu (ws w' tws) = Some t'
+    /\ r = combine (uids s) (uids t')
+    /\ (NoDup (uids t) -> erase t' = erase (relabel (look r) s)).
+Proof.
+  intros Hc Hclr Hok. destruct (copy_core _ _ _ _ _ _ _ _ _ Hc) as [t [tp [t' [st' [Et [Ep [Hrec [_ [Hct [Hnu [Hr Hw]]]]]]]]]]].
+  cbv zeta in Hw. unfold clears in Hw. rewrite Hclr in Hw. simpl in Hw. subst w' nu.
+  destruct (copy_tree_iso _ _ _ _ _ Hct) as [s [Hs Hiso]].
+  assert (Hst : st_ok (st0_of w tws)) by (intros x Hx; simpl in *; apply (world_ok_ws w tws Hok x Hx)).
+  assert (Hsrc : forall x, In x (uids t) -> (x < nxt (st0_of w tws))%N).
+  { intros x Hx. simpl. apply (world_ok_ws w sws Hok). apply (proj2 (tfind_some _ _ _ Et)). exact Hx. }
+  destruct (copy_tree_fresh _ _ _ _ _ Hct Hst Hsrc) as [_ [Hdisj _]]. simpl in Hdisj.
+  assert (Hu : uids s = copied_uids (o_children o) t) by (apply (spec_tree_uids _ _ _ Hs)).
+  exists t, tp, s, t'. repeat split; try assumption.
+  - rewrite ws_set_same. apply (insert_find_new _ _ _ _ Ep). apply Hdisj. apply iso_root_in.
+  - rewrite Hu. exact Hr.
+  - intros Hnd. rewrite Hr, <- Hu. apply iso_relabel; [exact Hiso|]. rewrite Hu. apply copied_uids_nodup. exact Hnd.
+Qed.
+
+(* ------------------------------------------------------------------ masks: the copy keeps exactly the selected part *)
+Definition rank (m : list bool) (i : nat) : nat := count_true (firstn i m).
+
+Lemma rank_0 m : rank m 0 = 0.
+Proof. reflexivity. Qed.
+Lemma rank_S b m i : rank (b :: m) (S i) = (if b then 1 else 0) + rank m i.
+Proof. unfold rank, count_true. simpl. destruct b; reflexivity. Qed.
+
+Lemma compress_nth {A} : forall (m : list bool) (l : list A) i,
+  nth_error m i = Some true -> nth_error (compress m l) (rank m i) = nth_error l i.
+Proof.
+  induction m as [|b m IH]; intros l i Hm; [destruct i; discriminate|].
+  destruct l as [|x l].
+  - simpl. destruct (rank (b :: m) i); destruct i; reflexivity.
+  - destruct i as [|i]; simpl in Hm.
+    + inversion Hm; subst. reflexivity.
+    + rewrite rank_S. destruct b; simpl; apply (IH l i Hm).
+Qed.
+
+Lemma compress_length {A} : forall (m : list bool) (l : list A), length m = length l -> length (compress m l) = count_true m.
+Proof.
+  induction m as [|b m IH]; intros [|x l] E; simpl in *; try discriminate; [reflexivity|].
+  unfold count_true in *. simpl. destruct b; simpl; rewrite IH by congruence; reflexivity.
+Qed.
+
+Lemma new_ids_from_nth : forall m k i, nth_error m i = Some true -> nth i (new_ids_from k m) 1 = k + rank m i.
+Proof.
+  induction m as [|b m IH]; intros k i Hm; [destruct i; discriminate|].
+  destruct i as [|i]; simpl in Hm.
+  - inversion Hm; subst. simpl. rewrite rank_0. lia.
+  - rewrite rank_S. destruct b; simpl.
+    + rewrite (IH (S k) i Hm). lia.
+    + rewrite (IH k i Hm). lia.
+Qed.
+
+(* every cell of the masked copy joins the same vertex tokens as the source cell it comes from *)
+Theorem masked_cell_same_vertices {A} (m : list bool) (vs : list A) (c : list nat) :
+  cell_kept m c = true ->
+  map (nth_error (compress m vs)) (map (fun v => nth v (new_ids m) 1) c) = map (nth_error vs) c.
+Proof.
+  intros Hk. unfold cell_kept in Hk. rewrite forallb_forall in Hk. rewrite map_map. apply map_ext_in. intros v Hv.
+  specialize (Hk v Hv).
+  assert (Hm : nth_error m v = Some true).
+  { clear -Hk. revert v Hk. induction m as [|b m IH]; intros [|v] Hk; simpl in *; try discriminate; [congruence | apply IH; exact Hk]. }
+  unfold new_ids. rewrite (new_ids_from_nth m 0 v Hm). simpl. apply compress_nth. exact Hm.
+Qed.
+
+(* a kept vertex keeps its token; vertices that are masked out are dropped (the lengths add up) *)
+Theorem masked_vertices {A} (m : list bool) (vs : list A) i :
+  nth_error m i = Some true -> nth_error (compress m vs) (rank m i) = nth_error vs i.
+Proof. apply compress_nth. Qed.
+
+Lemma fillmask_nth {A} (nd : option A) : forall m l i,
+  length m = length l -> i < length l ->
+  nth_error (fillmask nd m l) i = Some (if nth i m false then nth i l None else nd).
+Proof.
+  induction m as [|b m IH]; intros [|x l] i E Hi; simpl in *; try discriminate; try lia.
+  destruct i as [|i]; simpl; [destruct b; reflexivity|]. apply IH; [congruence | lia].
+Qed.
+
+(* ------------------------------------------------------------------ metadata locations *)
+Lemma masked_payload_meta cx p p1 : masked_payload cx p = Ok p1 -> meta p1 = meta p.
+Proof.
+  unfold masked_payload. destruct (knd p).
+  - intros E; inversion E; reflexivity.
+  - destruct (cmk cx) as [|m|m].
+    + intros E; inversion E; reflexivity.
+    + destruct (geok p); try (intros E; inversion E; reflexivity);
+        destruct (verts p); try (intros E; inversion E; reflexivity);
+        destruct (Nat.eqb _ _); intros E; inversion E; reflexivity.
+    + intros E; inversion E; reflexivity.
+  - destruct (cmk cx) as [|m|m]; destruct (vals p) as [v|]; try (intros E; inversion E; reflexivity).
+    + destruct (negb _); [discriminate|]. destruct (match asc p with ACell => pnc cx | _ => pnv cx end); [|discriminate].
+      intros E; inversion E; reflexivity.
+    + destruct (Nat.eqb _ _); intros E; inversion E; reflexivity.
+Qed.
+
+Lemma metas_unfold n ch : metas (T n ch) = (match meta (pl n) with Some l => [l] | None => [] end) ++ flat_map metas ch.
+Proof. reflexivity. Qed.
+
+Lemma metas_iso : forall s t', iso s t' -> metas t' = metas s.
+Proof.
+  induction s as [n ch IH] using tree_ind2. intros t' Hi. inversion Hi as [n0 n' ch0 ch' Hpl Hpg Hch]; subst.
+  rewrite !metas_unfold, Hpl. f_equal. clear -IH Hch. induction Hch; simpl; [reflexivity|]. inversion IH; subst. f_equal; auto.
+Qed.
+
+Lemma metas_spec : forall t cx s, spec_tree t cx = Ok s -> incl (metas s) (metas t).
+Proof.
+  induction t as [n ch IH] using tree_ind2. intros cx s E. rewrite spec_tree_unfold in E.
+  destruct (masked_payload cx (pl n)) as [p1|] eqn:Em; [|discriminate]. cbv zeta in E.
+  apply masked_payload_meta in Em.
+  assert (Hroot : incl (match (if omit_meta cx then None else meta p1) with Some l => [l] | None => [] end)
+                       (match meta (pl n) with Some l => [l] | None => [] end)).
+  { rewrite Em. destruct (omit_meta cx); [intros x []|apply incl_refl]. }
+  destruct (negb (with_children cx)).
+  - inversion E; subst. rewrite !metas_unfold. simpl. rewrite app_nil_r. apply incl_appl.
+    destruct p1; simpl in *. exact Hroot.
+  - destruct (spec_list _ _ ch) as [sl|] eqn:Es; [|discriminate]. inversion E; subst. rewrite !metas_unfold.
+    apply incl_app; [apply incl_appl; destruct p1; simpl in *; exact Hroot|]. apply incl_appr.
+    clear E Hroot. revert sl Es. induction ch as [|c r IHr]; simpl; intros sl Es; [inversion Es; intros x []|].
+    inversion IH; subst. destruct (copied_child (pl n) c).
+    + destruct (spec_tree c _) as [c'|] eqn:Ec; [|discriminate]. destruct (spec_list _ _ r) as [r'|] eqn:Er; [|discriminate].
+      inversion Es; subst. simpl. apply incl_app; [apply incl_appl; apply (H1 _ _ Ec) | apply incl_appr; apply IHr; [assumption | reflexivity]].
+    + apply incl_appr. apply IHr; assumption.
+Qed.
+
+Lemma metas_insert : forall t p x, incl (metas (insert_child p x t)) (metas t ++ metas x).
+Proof.
+  induction t as [n ch IH] using tree_ind2. intros p x. simpl insert_child. destruct (N.eqb p (nuid n)).
+  - rewrite !metas_unfold, flat_map_app. simpl. rewrite app_nil_r, app_assoc. apply incl_refl.
+  - rewrite !metas_unfold. apply incl_app; [apply incl_appl; apply incl_appl; apply incl_refl|].
+    induction ch as [|c r IHr]; simpl; [intros y []|]. inversion IH; subst. apply incl_app.
+    + intros y Hy. apply (H1 p x) in Hy. apply in_app_or in Hy. apply in_or_app.
+      destruct Hy as [Hy|Hy]; [left; apply in_or_app; right; apply in_or_app; left; exact Hy | right; exact Hy].
+    + intros y Hy. apply (IHr H2) in Hy. apply in_app_or in Hy. apply in_or_app.
+      destruct Hy as [Hy|Hy]; [left|right; exact Hy]. apply in_app_or in Hy. apply in_or_app.
+      destruct Hy as [Hy|Hy]; [left; exact Hy | right; apply in_or_app; right; exact Hy].
+Qed.
+
+Lemma metas_tfind : forall t u s, tfind u t = Some s -> incl (metas s) (metas t).
+Proof.
+  induction t as [n ch IH] using tree_ind2. intros u s E. rewrite tfind_unfold in E.
+  destruct (N.eqb u (nuid n)); [inversion E; apply incl_refl|]. rewrite metas_unfold. apply incl_appr.
+  induction ch as [|c r IHr]; simpl in *; [discriminate|]. inversion IH; subst.
+  destruct (tfind u c) eqn:Ec; [inversion E; subst; apply incl_appl; apply (H1 _ _ Ec) | apply incl_appr; apply IHr; assumption].
+Qed.
+
+Lemma meta_root_in t l : meta (pl (root_node t)) = Some l -> In l (metas t).
+Proof. destruct t as [n ch]. simpl. intros E. rewrite E. left. reflexivity. Qed.
+
+Definition locs_ok (w : world) : Prop := forall l, In l (metas (wsA w) ++ metas (wsB w)) -> (l < wnext w)%N.
+
+Lemma locs_ok_ws w b l : locs_ok w -> In l (metas (ws w b)) -> (l < wnext w)%N.
+Proof. intros H Hl. apply H. apply in_or_app. destruct b; [right | left]; exact Hl. Qed.
+
+Lemma metas_set_ws w b t nx l :
+  In l (metas (wsA (set_ws w b t nx)) ++ metas (wsB (set_ws w b t nx))) -> In l (metas t) \/ In l (metas (ws w (negb b))).
+Proof.
+  intros H. apply in_app_or in H. destruct b; simpl in *; tauto.
+Qed.
+
+(* ------------------------------------------------------------------ edits of the copy *)
+Definition deep_of_view (h : list (loc * dictv)) (v : node * list uid) : node * list uid * option dictv :=
+  (fst v, snd v, deref h (meta (pl (fst v)))).
+
+Lemma deep_view_eq h t : deep_view h t = deep_of_view h (node_view t).
+Proof. reflexivity. Qed.
+
+Lemma deep_of_eq w b x : deep_of w b x = option_map (deep_of_view (heap w)) (node_of x (ws w b)).
+Proof. unfold deep_of, node_of. destruct (tfind x (ws w b)); reflexivity. Qed.
+
+Definition edit_fun (e : edit) : option (node -> node) :=
+  match e with
+  | SetAttr k v => Some (with_pl (fun q => set_attrs q (override1 k v (attrs q))))
+  | SetVerts v => Some (with_pl (fun q => set_payload q v (cells q) (vals q)))
+  | SetVals v => Some (with_pl (fun q => set_payload q (verts q) (cells q) (Some v)))
+  | SetMeta _ => None
+  end.
+
+Lemma with_pl_uid f n : nuid (with_pl f n) = nuid n.
+Proof. reflexivity. Qed.
+
+(* an edit of entity y that does not write through a shared dict leaves every other entity of both workspaces unchanged *)
+Lemma edit_frame w b y ed w'' :
+  apply_edit w b y ed = Ok w'' ->
+  (forall d, ed = SetMeta d -> exists ty, tfind y (ws w b) = Some ty /\ meta (pl (root_node ty)) = None) ->
+  locs_ok w ->
+  forall b' x, (b' = b -> x <> y) -> In x (uids (ws w b')) -> deep_of w'' b' x = deep_of w b' x.
+Proof.
+  intros Ha Hsafe Hlocs b' x Hxy Hx. unfold apply_edit in Ha.
+  destruct (tfind y (ws w b)) as [ty|] eqn:Ety; [|discriminate].
+  assert (Hupd : forall f, (forall n, nuid (f n) = nuid n) ->
+            deep_of (set_ws w b (update_node y f (ws w b)) (wnext w)) b' x = deep_of w b' x).
+  { intros f Hf. rewrite !deep_of_eq, heap_set. destruct (Bool.eqb b' b) eqn:Eb.
+    - apply eqb_prop in Eb. subst b'. rewrite ws_set_same. unfold node_of. rewrite update_view_other; [reflexivity | exact Hf | apply Hxy; reflexivity].
+    - assert (b' = negb b) by (destruct b, b'; simpl in Eb; try discriminate; reflexivity). subst b'. rewrite ws_set_other. reflexivity. }
+  destruct ed as [k v|v|v|d].
+  - inversion Ha; subst. apply Hupd. intros n. reflexivity.
+  - inversion Ha; subst. apply Hupd. intros n. reflexivity.
+  - inversion Ha; subst. apply Hupd. intros n. reflexivity.
+  - destruct (Hsafe d eq_refl) as [ty' [Ety' Hnone]]. assert (Eq : ty' = ty) by congruence. subst ty'. rewrite Hnone in Ha.
+    inversion Ha; subst. clear Ha.
+    set (w1 := set_ws w b (update_node y (with_pl (fun q => set_meta q (Some (wnext w)))) (ws w b)) (N.succ (wnext w))).
+    assert (Hview : node_of x (ws w1 b') = node_of x (ws w b')).
+    { unfold w1. destruct (Bool.eqb b' b) eqn:Eb.
+      - apply eqb_prop in Eb. subst b'. rewrite ws_set_same. unfold node_of. apply update_view_other; [intros n; reflexivity | apply Hxy; reflexivity].
+      - assert (b' = negb b) by (destruct b, b'; simpl in Eb; try discriminate; reflexivity). subst b'. rewrite ws_set_other. reflexivity. }
+    rewrite !deep_of_eq. simpl heap.
+    assert (Hws : ws {| wsA := wsA w1; wsB := wsB w1; heap := (wnext w, d) :: heap w; wnext := wnext w1 |} b' = ws w1 b') by (destruct b'; reflexivity).
+    rewrite Hws, Hview. unfold node_of. destruct (tfind x (ws w b')) as [tx|] eqn:Etx; [|reflexivity]. simpl.
+    unfold deep_of_view. simpl. f_equal. f_equal. unfold deref.
+    destruct (meta (pl (root_node tx))) as [l|] eqn:El; [|reflexivity]. simpl.
+    assert (Hl : (l < wnext w)%N).
+    { apply (locs_ok_ws w b' l Hlocs). apply (metas_tfind _ _ _ Etx). apply meta_root_in. exact El. }
+    destruct (N.eqb l (wnext w)) eqn:E; [apply N.eqb_eq in E; lia | reflexivity].
+Qed.
+
+Theorem no_alias_partial w sws u tws p o w' nu r tc y ed w'' :
+  world_ok w -> locs_ok w ->
+  copy w sws u tws p o = Ok (w', nu, r) -> o_clear o = false ->
+  tfind nu (ws w' tws) = Some tc -> In y (uids tc) ->
+  (forall d, ed = SetMeta d -> exists ty, tfind y (ws w' tws) = Some ty /\ meta (pl (root_node ty)) = None) ->
+  apply_edit w' tws y ed = Ok w'' ->
+  forall b x, In x (uids (ws w b)) -> deep_of w'' b x = deep_of w' b x.
+Proof.
+  intros Hok Hlocs Hc Hclr Htc Hy Hsafe Ha b x Hx.
+  destruct (copy_core _ _ _ _ _ _ _ _ _ Hc) as [t [tp [t' [st' [Et [Ep [Hrec [_ [Hct [Hnu [Hr Hw]]]]]]]]]]].
+  cbv zeta in Hw. unfold clears in Hw. rewrite Hclr in Hw. simpl in Hw.
+  assert (Hst : st_ok (st0_of w tws)) by (intros z Hz; simpl in *; apply (world_ok_ws w tws Hok z Hz)).
+  assert (Hsrc : forall z, In z (uids t) -> (z < nxt (st0_of w tws))%N).
+  { intros z Hz. simpl. apply (world_ok_ws w sws Hok). apply (proj2 (tfind_some _ _ _ Et)). exact Hz. }
+  destruct (copy_tree_fresh _ _ _ _ _ Hct Hst Hsrc) as [_ [Hdisj [_ [Hnx _]]]]. simpl in Hdisj, Hnx.
+  destruct (copy_tree_iso _ _ _ _ _ Hct) as [s [Hs Hiso]].
+  assert (Hfind : tfind nu (ws w' tws) = Some t').
+  { subst w' nu. rewrite ws_set_same. apply (insert_find_new _ _ _ _ Ep). apply Hdisj. apply iso_root_in. }
+  rewrite Hfind in Htc. inversion Htc; subst tc.
+  (* metadata locations of the new world are those of the old one *)
+  assert (Hlocs' : locs_ok w').
+  { intros l Hl. subst w'. rewrite wnext_set.
+    assert (Hin : In l (metas (ws w tws) ++ metas t') \/ In l (metas (ws w (negb tws)))).
+    { apply metas_set_ws in Hl. destruct Hl as [Hl|Hl]; [left; apply (metas_insert (ws w tws) p t' l Hl) | right; exact Hl]. }
+    apply N.lt_le_trans with (wnext w); [|exact Hnx].
+    destruct Hin as [Hin|Hin]; [|apply (locs_ok_ws w (negb tws) l Hlocs Hin)].
+    apply in_app_or in Hin. destruct Hin as [Hin|Hin]; [apply (locs_ok_ws w tws l Hlocs Hin)|].
+    rewrite (metas_iso _ _ Hiso) in Hin. apply (metas_spec _ _ _ Hs) in Hin. apply (metas_tfind _ _ _ Et) in Hin.
+    apply (locs_ok_ws w sws l Hlocs Hin). }
+  apply (edit_frame w' tws y ed w'' Ha Hsafe Hlocs').
+  - intros Eb Exy. subst b x. apply (Hdisj y Hy Hx).
+  - subst w'. destruct (Bool.eqb b tws) eqn:Eb.
+    + apply eqb_prop in Eb. subst b. rewrite ws_set_same.
+      eapply Permutation_in; [apply Permutation_sym; apply Permutation_refl|].
+      destruct (in_dec N.eq_dec x (uids (insert_child p t' (ws w tws)))) as [Hi|Hi]; [exact Hi|].
+      exfalso. apply Hi. clear Hi.
+      (* insertion only adds uids *)
+      clear -Hx. revert Hx. generalize (ws w tws). induction t as [n ch IH] using tree_ind2. intros Hx. simpl insert_child.
+      destruct (N.eqb p (nuid n)); simpl in *.
+      * destruct Hx as [Hx|Hx]; [left; exact Hx | right; rewrite flat_map_app; apply in_or_app; left; exact Hx].
+      * destruct Hx as [Hx|Hx]; [left; exact Hx | right]. apply in_flat_map in Hx. destruct Hx as [c [Hc Hxc]].
+        apply in_flat_map. exists (insert_child p t' c). split; [apply in_map; exact Hc|].
+        rewrite Forall_forall in IH. apply (IH c Hc Hxc).
+    + assert (b = negb tws) by (destruct b, tws; simpl in Eb; try discriminate; reflexivity). subst b. rewrite ws_set_other. exact Hx.
+Qed.
+
+(* ------------------------------------------------------------------ the two refuted full statements and their witnesses *)
+Definition o_plain : opts := {| o_children := true; o_mask := None; o_omit_meta := false; o_over := []; o_clear := false |}.
+Definition o_clearing : opts := {| o_children := true; o_mask := None; o_omit_meta := false; o_over := []; o_clear := true |}.
+
+Definition p_root : payload := mkp 0 KGroup GPlain AObject [] [] [] 0 None None false None.
+Definition p_points : payload := mkp 1 KObject GPoints AObject [(5, 6)%Z] [7; 8]%Z [] 0 None (Some 50%N) false None.
+Definition p_data : payload := mkp 2 KData GPlain AVertex [] [] [] 0 (Some [Some 3; None]%Z) None false None.
+(* root 0 { Points 1 (metadata dict at location 50) { data 2 } property group {2} } ; second workspace: root 9 *)
+Definition w_alias : world :=
+  {| wsA := T (mkn 0 p_root []) [T (mkn 1 p_points [mkg 3 4%Z [2%N]]) [T (mkn 2 p_data []) []]];
+     wsB := T (mkn 9 p_root []) [];
+     heap := [(50%N, [(1, 1)%Z])]; wnext := 100%N |}.
+
+(* later edits of the copy never show through in a pre-existing entity *)
+Definition no_alias_full : Prop :=
+  forall w sws u tws p o w' nu r tc y ed w'' b x,
+    world_ok w -> locs_ok w ->
+    copy w sws u tws p o = Ok (w', nu, r) -> o_clear o = false ->
+    tfind nu (ws w' tws) = Some tc -> In y (uids tc) ->
+    apply_edit w' tws y ed = Ok w'' ->
+    In x (uids (ws w b)) -> deep_of w'' b x = deep_of w' b x.
+
+Lemma w_alias_ok : world_ok w_alias /\ locs_ok w_alias.
+Proof.
+  split; [split|]; intros x Hx; simpl in Hx; repeat (destruct Hx as [Hx|Hx]; [subst; reflexivity|]); contradiction.
+Qed.
+
+Theorem no_alias_refuted : ~ no_alias_full.
+Proof.
+  intros H.
+  assert (Hc : exists w' nu r tc w'',
+            copy w_alias false 1%N false 0%N o_plain = Ok (w', nu, r) /\ tfind nu (ws w' false) = Some tc /\ In nu (uids tc)
+            /\ apply_edit w' false nu (SetMeta [(1, 2)%Z]) = Ok w'' /\ deep_of w'' false 1%N <> deep_of w' false 1%N).
+  { eexists _, _, _, _, _. split; [vm_compute; reflexivity|]. split; [vm_compute; reflexivity|]. split; [left; reflexivity|].
+    split; [vm_compute; reflexivity|]. vm_compute. discriminate. }
+  destruct Hc as (w' & nu & r & tc & w'' & H1 & H2 & H3 & H4 & H5). apply H5.
+  apply (H w_alias false 1%N false 0%N o_plain w' nu r tc nu (SetMeta [(1, 2)%Z]) w'' false 1%N
+           (proj1 w_alias_ok) (proj2 w_alias_ok) H1 eq_refl H2 H3 H4).
+  simpl. right. left. reflexivity.
+Qed.
+
+(* the source subtree is the same after the copy *)
+Definition source_unchanged_full : Prop :=
+  forall w sws u tws p o w' nu r,
+    world_ok w -> copy w sws u tws p o = Ok (w', nu, r) -> tfind u (ws w' sws) = tfind u (ws w sws).
+
+(* a Curve with 4 vertices and the single cell [0;1] *)
+Definition p_curve : payload := mkp 3 KObject GCurve AObject [] [7; 8; 9; 10]%Z [[0; 1]] 0 None None false None.
+Definition w_curve : world :=
+  {| wsA := T (mkn 0 p_root []) [T (mkn 1 p_curve []) []]; wsB := T (mkn 9 p_root []) []; heap := []; wnext := 100%N |}.
+
+Lemma w_curve_ok : world_ok w_curve.
+Proof. split; intros x Hx; simpl in Hx; repeat (destruct Hx as [Hx|Hx]; [subst; reflexivity|]); contradiction. Qed.
+
+Theorem source_unchanged_refuted : ~ source_unchanged_full.
+Proof.
+  intros H.
+  assert (Hc : exists w' nu r, copy w_curve false 1%N false 0%N o_clearing = Ok (w', nu, r)
+                               /\ tfind 1%N (ws w' false) <> tfind 1%N (ws w_curve false)).
+  { eexists _, _, _. split; [vm_compute; reflexivity|]. vm_compute. discriminate. }
+  destruct Hc as (w' & nu & r & H1 & H2). apply H2. apply (H w_curve false 1%N false 0%N o_clearing w' nu r w_curve_ok H1).
+Qed.
+
+Theorem source_unchanged_partial w sws u tws p o w' nu r :
+  world_ok w -> o_clear o = false -> copy w sws u tws p o = Ok (w', nu, r) -> tfind u (ws w' sws) = tfind u (ws w sws).
+Proof. intros Hok Hclr Hc. apply (copy_frame _ _ _ _ _ _ _ _ _ Hc Hclr Hok). Qed.
+
+(* what clear_cache does to the source: exactly the rebuilt cells, nothing else *)
+Example clear_cache_witness :
+  exists w' nu r, copy w_curve false 1%N false 0%N o_clearing = Ok (w', nu, r)
+    /\ option_map (fun t => cells (pl (root_node t))) (tfind 1%N (ws w' false)) = Some [[0; 1]; [1; 2]; [2; 3]]
+    /\ option_map (fun t => cells (pl (root_node t))) (tfind nu (ws w' false)) = Some [[0; 1]].
+Proof. eexists _, _, _. split; [vm_compute; reflexivity|]. split; vm_compute; reflexivity. Qed.
+
+(* ------------------------------------------------------------------ packaged statements *)
+Theorem copy_tree_relabel t cx st t' st' :
+  copy_tree t cx st = Ok (t', st') -> NoDup (uids t) ->
+  exists s, spec_tree t cx = Ok s /\ erase t' = erase (relabel (look (combine (uids s) (uids t'))) s).
+Proof.
+  intros Hc Hnd. destruct (copy_tree_iso _ _ _ _ _ Hc) as [s [Hs Hi]]. exists s. split; [exact Hs|].
+  apply iso_relabel; [exact Hi|]. rewrite (spec_tree_uids _ _ _ Hs). apply copied_uids_nodup. exact Hnd.
+Qed.
+
+Theorem copy_tree_plain_relabel t cx st t' st' :
+  copy_tree t cx st = Ok (t', st') -> plain cx -> all_copied t -> NoDup (uids t) ->
+  erase t' = erase (relabel (look (combine (uids t) (uids t'))) t).
+Proof.
+  intros Hc Hp Ha Hnd. destruct (copy_tree_relabel _ _ _ _ _ Hc Hnd) as [s [Hs He]].
+  rewrite (spec_tree_plain t cx Hp), (prune_all t Ha) in Hs. inversion Hs; subst. exact He.
+Qed.
+
+(* non-vacuity: the alias witness world satisfies every hypothesis used above and the copy succeeds on it *)
+Example copy_nonvacuous :
+  world_ok w_alias /\ locs_ok w_alias /\ NoDup (uids (wsA w_alias)) /\ all_copied (wsA w_alias)
+  /\ exists w' nu r, copy w_alias false 1%N false 0%N o_plain = Ok (w', nu, r) /\ nu = 100%N /\ r = [(1%N, 100%N); (2%N, 101%N)].
+Proof.
+  split; [apply w_alias_ok|]. split; [apply w_alias_ok|]. split.
+  - simpl. repeat constructor; simpl; intuition discriminate.
+  - split; [simpl; repeat split|]. eexists _, _, _. split; [vm_compute; reflexivity|]. split; reflexivity.
 Qed.
